@@ -83,9 +83,9 @@ type OrLabelMatcher struct {
 
 // Process implements Processor.
 func (m *OrLabelMatcher) Process(ts otelstorage.Timestamp, line string, set LabelSet) (_ string, keep bool) {
-	line, keep = m.Left.Process(ts, line, set)
-	if keep {
-		return line, keep
+	// Do not pass line returned by the rejecting left side to the right one: it may be empty.
+	if newLine, keep := m.Left.Process(ts, line, set); keep {
+		return newLine, keep
 	}
 	return m.Right.Process(ts, line, set)
 }
